@@ -189,7 +189,8 @@ def run(tier):
                 "non-trivial = case has a flattened axis, a unit axis, several bracketed axes or permuted output")
     rep.assumptions = ["only the numpy adapters are runnable (adapt_with_vmap needs a framework with vmap; none is importable) - declared uncovered",
                        "user functions: position-weighted sum (order-sensitive) and 2x+3y"]
-    lens = corpus.LENS_QUICK if tier == "quick" else corpus.LENS_THOROUGH
+    # square operands (all lengths equal): a skipped alignment transposes nothing visible in the shapes
+    lens = (corpus.LENS_QUICK + [(2, 2, 2, 2, 2, 2)]) if tier == "quick" else corpus.LENS_THOROUGH
     cases = corpus.generate(rep, [("reduce", ["a", "b", "c"], lens, 3, 3), ("elementwise", ["a", "b"], lens, 2, 2)])
     rep.exhaustive = True
     cases = [c for c in cases if not (c["fam"] == "elementwise" and any("d" in t for t in c["outtoks"][0]))] if False else cases
